@@ -1167,3 +1167,13 @@ def TABLES():
           ", ".join(f'("{k}", "{v.__name__}")' for k, v in Aggregator.accumulator_classes.items()) + "]", "",
           "end RV.C08", ""]
     return "\n".join(L)
+
+
+def _tag(prefix):
+    return lambda case, result: any(v.startswith(prefix) for v in result["viol"])
+
+
+# matchers of the *fixed* entries (documentation; core only consults matchers of `known` entries)
+MATCHERS.update({"abort_distinct_unbound": _tag("abort"), "abort_sum_nonnumeric": _tag("abort"), "agg_error_value": _tag("abort"),
+                 "minmax_iri": _tag("group"), "abort_order_error": _tag("abort"), "order_unselected_key": _tag("order"),
+                 "sum_derived_dt": _tag("group")})
